@@ -12,7 +12,7 @@ def gen(repo, out):
     subprocess.run([sys.executable, os.path.join(VERIF, "tools", "gen_code.py"), repo, os.path.join(out, "Code.lean")], capture_output=True)
     subprocess.run([sys.executable, os.path.join(VERIF, "tools", "gen_constants.py"), repo, os.path.join(out, "Constants.lean")], capture_output=True)
     defs = {}
-    for f in ("Code.lean", "CodeImp.lean", "CodeStr.lean", "CodeKsa.lean", "CodeHash.lean", "Constants.lean", "Facts.lean"):
+    for f in ("Code.lean", "CodeImp.lean", "CodeStr.lean", "CodeKsa.lean", "CodeHash.lean", "CodeIlv.lean", "CodeApi.lean", "Constants.lean", "Facts.lean"):
         p = os.path.join(out, f)
         if not os.path.exists(p): continue
         for m in re.finditer(r"^(?:def|abbrev) (\w+)[^\n]*(?:\n(?!def |abbrev |/--|end |namespace ).*)*", open(p).read(), re.M):
